@@ -81,6 +81,8 @@ def trees(tier):
                 continue
             outs = ('b', 'a', 'c')[:k]
             out.append([(o, i) for o, inn in zip(outs, combo) for i in inn])
+    # inner labels 0..k-1 under every parent: the shape produced by concatenating auto-indexed containers (leaves are then auto-integer indices)
+    out += [[('b', 0), ('b', 1), ('a', 0), ('a', 1), ('a', 2)], [('b', 0), ('a', 0), ('a', 1)], [('a', 0), ('a', 1), ('b', 0), ('c', 0), ('c', 1)]]
     # depth 3 with a datetime middle level and repeated innermost labels
     mids = [(D('2020-01-01'),), (D('2020-01-01'), D('2020-01-02')), (D('2020-01-02'), D('2020-01-01'))]
     leafs = [('x',), ('x', 'y'), ('y', 'x')]
@@ -148,6 +150,10 @@ def build_routes(tuples):
             tree.setdefault(o, []).append(i)
         routes.append(('from_tree', lambda: sf.IndexHierarchy.from_tree(tree)))
         routes.append(('from_index_items', lambda: sf.IndexHierarchy.from_index_items((o, sf.Index(v)) for o, v in tree.items())))
+        if all(list(v) == list(range(len(v))) for v in tree.values()):
+            routes.append(('concat_items(auto-indexed Series)', lambda: sf.Series.from_concat_items((o, sf.Series(np.zeros(len(v)))) for o, v in tree.items()).index))
+            routes.append(('from_index_items(auto leaves)', lambda: sf.IndexHierarchy.from_index_items(
+                (o, sf.IndexAutoFactory.from_optional_constructor(len(v), default_constructor=sf.Index)) for o, v in tree.items())))
     return routes
 
 
